@@ -36,7 +36,8 @@ def generate(rng, tier):
     names = rng.sample(["a.bin", "b.bin", "c c.bin"], rng.randint(1, 3))
     if rng.random() < 0.12:
         # names that are harmless as file names but special in format strings / templates
-        names[0] = rng.choice(["graded_100%.mov", "50%s_proxy.mov", "{0}.bin", "%(name)s.bin", "a$b.bin", "\\n.bin"])
+        names[0] = rng.choice(["graded_100%.mov", "50%s_proxy.mov", "{0}.bin", "%(name)s.bin", "a$b.bin", "\\n.bin",
+                               "take 1.mov ", " lead.bin", "tab\tend\t", "nbsp\u00a0"])
     for n in names:
         tree[n] = {"t": "f", "c": gen.unique_content(rng)}
     if nested:
